@@ -29,6 +29,8 @@ add('n3', 'rankv_fwd_n3', 11, 'crate::build::h_rank_slots(N, true)', True)
 # C18 with the oracle inside the queue stub (asserted at the violating pop): a smaller unwind bound suffices
 add('n3', 'rankc_fwd_n3', 8, 'crate::build::h_rank_slots(N, true)', 'c18')
 add('n3', 'rankc_n3', 8, 'crate::build::h_rank(N)', 'c18')
+# experiment: the smallest size at which walking every path exceeds n pops (needs ~58 GB; not registered in any tier)
+add('n5', 'rankc_fwd_n5', 16, 'crate::build::h_rank_slots(N, true)', 'c18')
 add('n5', 'rank_fwd_n5', 18, 'crate::build::h_rank_slots(N, true)', True)
 for n in (2, 3):
     add('n%d' % n, 'builder_n%d' % n, 8, 'crate::build::h_builder(N)', True)
